@@ -29,6 +29,10 @@ class Module:
                 self.tree = ast.parse(source, filename=path)
         except SyntaxError as e:
             raise AnalysisError(f"{path} does not parse: {e}")
+        self.normal_count = {}
+        if not os.environ.get("MSA_NO_NORMAL"):
+            from .normal import normalise
+            self.tree, self.normal_count = normalise(self.tree)
         self.funcs: dict[str, ast.FunctionDef] = {}
         self.classes: dict[str, ast.ClassDef] = {}
         self._index(self.tree.body, "")
